@@ -140,6 +140,12 @@ func (p *Proxy) ServeHTTP(w http.ResponseWriter, r *http.Request) {
 		if time.Since(start) > time.Duration(jobInfo.Config.ScrapeTimeout) {
 			scrapErr = fmt.Errorf("scrape timeout")
 		}
+		if stopReason == "" {
+			// part of the body may have been copied to prometheus with status 200 already,
+			// a status code set now would be ignored, so abort the response to make
+			// prometheus see a failed scrape instead of a complete but truncated one
+			panic(http.ErrAbortHandler)
+		}
 		return
 	}
 
